@@ -108,18 +108,37 @@ func buildManager(g graph, mode func(i int) int, regOrder []int, variadic bool, 
 		}
 		return mm, nil
 	}
+	// the variadic declarations pass slices of one buffer the caller keeps reusing (and finally overwrites):
+	// the manager must not keep the caller's memory
+	buf := make([]string, 0, 16)
+	defer func() {
+		buf = buf[:cap(buf)]
+		for k := range buf {
+			buf[k] = "overwritten-by-the-caller"
+		}
+	}()
 	for i := 0; i < g.N; i++ {
 		ds := g.Deps[i]
 		if len(ds) == 0 {
 			continue
 		}
 		if variadic {
-			var ns []string
+			ns := buf[:0]
 			for _, d := range ds {
 				ns = append(ns, name(d))
 			}
-			if err := mm.AddDependency(name(i), ns...); err != nil {
+			// in two calls when there are several: the second call extends what the first one stored
+			cut := len(ns)
+			if len(ns) > 1 && i%2 == 1 {
+				cut = len(ns) / 2
+			}
+			if err := mm.AddDependency(name(i), ns[:cut]...); err != nil {
 				return nil, err
+			}
+			if cut < len(ns) {
+				if err := mm.AddDependency(name(i), ns[cut:]...); err != nil {
+					return nil, err
+				}
 			}
 		} else {
 			for _, d := range ds {
